@@ -8,6 +8,8 @@ ASSUMPTIONS = [
     "TypedDict keys, strangers) with symbolic presence; nesting depth 1 below the position (2 thorough)",
     "REF_DECODE / CONFORMS (vf/oracle.py) written from README.md; union order reading: exact-type scalar members first, "
     "then non-scalar members in declaration order, then scalar coercions (documented in DESIGN.md 6 C11)",
+    "deep valid inputs (harnesses *_deep): d = REF_ENCODE(T, v) for a symbolic conforming value v of every structured schema "
+    "(dataclass / NamedTuple / TypedDict somewhere); the implementation's packer is not involved",
     "schemas enumerated from the grammar, not solver-quantified",
 ]
 
@@ -28,7 +30,32 @@ def harnesses(tier, seed):
                 hs.append(gen.custom_harness("C03", "c03", s, variant, "depth=1", "depth=1"))
             except Exception as e:
                 skipped.append((s.name, variant, repr(e)[:200]))
+    # deep valid inputs: REF_ENCODE(v) for a symbolic conforming v (structured schemas, where depth-1 inputs are all rejected)
+    deep = [s for s in schemas.leaf_schemas() + schemas.extras()
+            if "stype" not in s.tags and "fieldonly" not in s.tags and structured(s)]
+    if tier != "quick":
+        deep += [s for s in schemas.depth2(["mix", "nt", "td"]) if "stype" not in s.tags and "fieldonly" not in s.tags]
+    for s in deep:
+        for variant in (("codec",) if tier == "quick" else ("codec", "field")):
+            try:
+                hs.append(gen.value_harness("C03", "c03v", s, variant, "Bounds(maxlen=1)" if tier == "quick" else "Bounds(maxlen=2)",
+                                            name_suffix="_deep", timeout=180 if tier == "quick" else 400))
+            except Exception as e:
+                skipped.append((s.name, variant + "_deep", repr(e)[:200]))
     return hs, skipped
+
+
+def structured(s):
+    """schemas with a dataclass / NamedTuple / TypedDict somewhere"""
+    from vf import tinfo
+    from vf.props.c06 import _walk_types
+
+    ns = gen.build_ns(s.prelude)
+    T = eval(s.texpr, ns)
+    try:
+        return any(ti.kind in ("dataclass", "namedtuple", "typeddict") for ti in _walk_types(T, set()))
+    except Exception:
+        return False
 
 
 def run(tier, seed):
